@@ -976,14 +976,22 @@ class CallMixin:
                 r = self.get_attr(v, e.args[1].value, s1, e, sub_exc)
                 if len(e.args) == 3:
                     r2 = self.ev(e.args[2], s1.copy(), exc)
-                    if isinstance(v.s, Obj):
-                        res.extend(r)       # declared object: the attribute exists
+                    declared = ("%s.%s" % (getattr(v.s, "oname", v.s.name), e.args[1].value)) in self.spec.attr_sorts
+                    if isinstance(v.s, Obj) or declared:
+                        res.extend(r)       # declared object / declared attribute (None modelled by its Opt sort)
                     else:
                         res.extend(r + r2)  # opaque: either
                 else:
                     exc.extend(sub_exc)
                     res.extend(r)
             return res
+        # a name that evaluates to a concrete string (e.g. the variable of an unrolled literal loop)
+        r0 = self.ev(e.args[1], st, [])
+        if len(r0) == 1 and z3.is_string_value(r0[0][1].t):
+            import copy
+            e2 = copy.copy(e)
+            e2.args = [e.args[0], ast.copy_location(ast.Constant(value=r0[0][1].t.as_string()), e.args[1])] + list(e.args[2:])
+            return self.bi_getattr(e2, st, exc, expect)
         raise EngineError("getattr with a computed name (L%d)" % e.lineno)
 
     def bi_hasattr(self, e, st, exc, expect):
